@@ -149,7 +149,7 @@ func (s *S) StepB(a *Actor) Status {
 
 var DebugStats struct {
 	AwaitSlow, AwaitBlocked, WaitUnb int
-	SlowReasons                   map[string]int
+	SlowReasons                      map[string]int
 }
 
 func (s *S) await(a *Actor) Status {
